@@ -92,3 +92,18 @@ pub fn vf_map_into<T, U, F: Fn(T) -> U>(v: Vec<T>, f: F) -> (r: Vec<U>)
 pub fn vf_any<T, F: Fn(&T) -> bool>(v: &Vec<T>, f: F) -> (r: bool)
     requires forall|x: T| #[trigger] f.requires((&x,))
 { unimplemented!() }
+pub open spec fn spec_filter_map<T, U>(s: Seq<T>, g: spec_fn(T) -> Option<U>) -> Seq<U>
+    decreases s.len()
+{
+    if s.len() == 0 { Seq::<U>::empty() }
+    else { match g(s.last()) { Some(u) => spec_filter_map(s.drop_last(), g).push(u), None => spec_filter_map(s.drop_last(), g) } }
+}
+impl<T> VIter<T> {
+    // Iterator::filter_map: applies the closure in order, keeps the Some results
+    #[verifier::external_body]
+    pub fn filter_map<U, F: Fn(T) -> Option<U>>(self, f: F) -> (r: VIter<U>)
+        requires forall|x: T| #[trigger] f.requires((x,)),
+        ensures forall|g: spec_fn(T) -> Option<U>| (forall|x: T, o: Option<U>| #[trigger] f.ensures((x,), o) ==> o == g(x))
+                    ==> r@ == #[trigger] spec_filter_map(self@, g),
+    { unimplemented!() }
+}
